@@ -40,9 +40,12 @@ structure Cfg where
   descentSiblings : Bool := true
   /-- slice.go `startEndStep` (Locate, Walk): a negative end is `size + end + 1` (inclusive) -/
   locNegEnd : Bool := true
-  /-- slice.go `startEndStep`: a start at or beyond the size becomes `size - 1` (Get selects nothing);
-  with an empty array and a negative step the walk then starts at index 0 of nothing -/
+  /-- slice.go `startEndStep`: a start at or beyond the size becomes `size - 1` (Get selects nothing).
+  The suite pins it (`a[5:0:-1]` on four elements expects `a[3] a[2] a[1]`). -/
   locStartClamp : Bool := true
+  /-- slice.go `startEndStep` on an empty array: the clamped start `size - 1 = -1` becomes 0, and with a
+  negative step and a negative end the walk visits index 0 of nothing (reported, or an index fault) -/
+  locEmptyArray : Bool := true
   /-- root.go `Root.locate`: the path `$` alone locates nothing (Get returns the data) -/
   locateRoot : Bool := true
   /-- descent.go/wildcard.go `wildWalk`: a descent applies the rest of the path to everything below the
@@ -82,7 +85,7 @@ structure Cfg where
 
 def Cfg.pinned : Cfg := {}
 def Cfg.fixed : Cfg :=
-  { innerEmptySlice := false, descentSiblings := false, locNegEnd := false, locStartClamp := false, locateRoot := false, walkDescentNoSelf := false,
+  { innerEmptySlice := false, descentSiblings := false, locNegEnd := false, locStartClamp := false, locEmptyArray := false, locateRoot := false, walkDescentNoSelf := false,
     nodesUnionNil := false, nodesFilterRev := false, firstNodeLast := false, nodesFilterNull := false,
     typedMapWild := false, typedObjFilter := false, firstTypedSlice := false, firstTypedWildOne := false,
     hasTypedMap := false, hasTypedDescent := false, walkTypedArray := false }
@@ -589,6 +592,7 @@ def ses (cfg : Cfg) (n : Nat) (s e t : Option Int) : Option SES :=
   let stop := e.getD maxEnd
   let step := t.getD 1
   if step = 0 then none
+  else if !cfg.locEmptyArray && n = 0 then none
   else if !cfg.locStartClamp && decide ((n : Int) ≤ (if start < 0 then (if (n : Int) + start < 0 then 0 else (n : Int) + start) else start)) then none
   else
     let start := if start < 0 then (n : Int) + start else if (n : Int) ≤ start then (n : Int) - 1 else start
